@@ -13,6 +13,7 @@ structure Group where
   tables : String
   again : String
   probe : String
+  nest : String
 
 def field (ws : List String) (name : String) : Option String :=
   match ws.find? (fun w => w.startsWith (name ++ "=")) with
@@ -28,7 +29,8 @@ def parseGroup (s : String) : Option Group :=
       | _ => ("-", "-")
     match parseNatList a with
     | some acked => some { k := k, acked := acked, infl := i.toNat?, phDone := pd, phAll := pa,
-                           openR := o, tables := t, again := ag, probe := p }
+                           openR := o, tables := t, again := ag, probe := p,
+                           nest := (field ws "nest").getD "-" }
     | none => none
   | _, _, _, _, _, _, _ => none
 
@@ -55,7 +57,7 @@ def inflKind (ops : List Op) (g : Group) : String :=
     | some _ => "stmt"
     | none => "?"
 
-def judgeGroup0 (crit : String) (ops : List Op) (ok : List Bool) (tables : List String) (g : Group) : Option String :=
+def judgeGroup0 (crit : String) (tornTol : Bool) (ops : List Op) (ok : List Bool) (tables : List String) (g : Group) : Option String :=
   if g.openR != "ok" then
     if crit == "crash08" then some s!"k={g.k} open={g.openR}" else none
   else
@@ -82,7 +84,17 @@ def judgeGroup0 (crit : String) (ops : List Op) (ok : List Bool) (tables : List 
       | "crash08" =>
         if g.again != "same" then some s!"k={g.k} again={g.again}"
         else if g.probe != "ok" then some s!"k={g.k} probe={g.probe}"
-        else none
+        else if g.nest == "-" ∨ g.nest.startsWith "ok:" then none
+        else
+          -- crash points inside recovery: `done/all:what` per failing point
+          let bad := (g.nest.splitOn ",").filter (fun e =>
+            match e.splitOn ":" with
+            | ph :: _ =>
+              match ph.splitOn "/" with
+              | [d, _] => !(tornTol && 1 ≤ countChar 'D' d && countChar 't' d == 0)
+              | _ => true
+            | [] => true)
+          if bad.isEmpty then none else some s!"k={g.k} inside-recovery={bad.take 3}"
       | _ => some "bad-criterion"
 
 /-! Region features of a workload prefix (ops with index ≤ p), used to attribute failures to listed findings. -/
@@ -139,7 +151,7 @@ def lastIndex (g : Group) : Nat :=
 /-- Region tolerances for listed findings (DESIGN §4.2): with the flag on, the judge accepts whatever is observed at
     crash points inside the named region, and nothing else. -/
 def judgeGroup (crit : String) (tol : Tol) (ops : List Op) (ok : List Bool) (tables : List String) (g : Group) : Option String :=
-  match judgeGroup0 crit ops ok tables g with
+  match judgeGroup0 crit (tol.has "ckptNotAtomic") ops ok tables g with
   | none => none
   | some why =>
     let kind := inflKind ops g
